@@ -11,7 +11,8 @@
      (3) and EVERY ViewOK state - reachable or not - renders a gap-free window   [view_ok].   *)
 From Coq Require Import ZArith List Bool.
 Import ListNotations.
-From Urwid Require Import PyBase ListBoxView ListBoxViewProofs ListBoxWindowProofs ListBoxHistoryProofs ListBoxMouseProofs.
+From Urwid Require Import PyBase ListBoxView ListBoxViewProofs ListBoxWindowProofs ListBoxHistoryProofs ListBoxMouseProofs
+  ListBoxPendingProofs.
 Open Scope Z_scope.
 
 (* --- (3) view_ok.  For every list of flow widgets with heights >= 0 (zero-height ones included),
@@ -117,14 +118,34 @@ Theorem mouse_press_focuses :
 Proof. exact mouse_press_focuses_lemma. Qed.
 Print Assumptions mouse_press_focuses.
 
-(* --- the full statement for renders that have to complete a pending focus request first
-   ("first selectable" of a fresh list box, set_focus) is NOT proved: [render_any_history_full].
-   With a pending set_focus whose old position no longer exists the statement is FALSE of the
-   model and of the implementation: [render_with_stale_pending_refuted] (replayed on the
-   implementation by corpus/C07/stale_pending.json: render raises IndexError).
-   What is proved instead: render_after_any_history (no request pending) and, for pending
-   requests, only that a successful completion leaves a ViewOK state (history_keeps_view_ok);
-   "completion does not raise" is checked by the correspondence and the oracle only. --- *)
+(* --- renders that have to complete a pending focus request first ("first selectable" of a fresh
+   list box, set_focus): after ANY history, with the widgets present at that time satisfying
+   WidgetsOK (heights >= 0, cursor rows inside their widgets) and the pending request - if any -
+   naming positions that still exist (PendOK), render does not raise, leaves no request pending, does
+   not touch the walker contents, and shows a window with all the clauses of view_ok for the state
+   it leaves (ShowsWindow).  PendOK holds for a fresh list box and after every set_focus; only a
+   walker edit can destroy it.  --- *)
+Theorem render_never_raises_any_history :
+  forall ops s s' out maxrow fflag,
+    ViewOK s -> Forall op_ok ops -> In (Ok (s', out)) (run s ops) ->
+    WidgetsOK (items s') -> 1 <= maxrow -> PendOK s' ->
+    exists s'' win cur,
+      render s' maxrow fflag = Ok (s'', (win, cur)) /\
+      pend s'' = PNone /\ items s'' = items s' /\ ViewOK s'' /\ ShowsWindow s'' maxrow fflag win cur.
+Proof. exact render_any_history_lemma. Qed.
+Print Assumptions render_never_raises_any_history.
+
+Theorem pending_requests_start_valid :
+  (forall s position cf s', set_focus s position cf = Ok s' -> PendOK s') /\
+  (forall its f o n d, PendOK {| items := its; focus := f; off := o; inum := n; iden := d; pend := PFirst |}).
+Proof. split; [exact set_focus_pend_ok | exact fresh_pend_ok]. Qed.
+Print Assumptions pending_requests_start_valid.
+
+(* --- WITHOUT the premise PendOK the statement is FALSE of the model and of the implementation:
+   with a pending set_focus whose old position no longer exists render raises
+   [render_with_stale_pending_refuted]; the witness is replayed on the implementation by
+   corpus/C07/stale_pending.json (render raises IndexError; known finding
+   C07-stale-pending-set-focus). --- *)
 Definition render_any_history_full : Prop :=
   forall ops s s' out maxrow fflag,
     ViewOK s -> Forall op_ok ops -> In (Ok (s', out)) (run s ops) ->
